@@ -202,6 +202,15 @@ func execGE(_ *config, op string) string {
 // ---- generators --------------------------------------------------------------------------
 
 // offsetPoint: the point `dist` metres from (lat, lon) at `bearing` degrees on a sphere of radius r.
+// gcBearingLL: initial great-circle bearing from point 1 to point 2, degrees
+func gcBearingLL(lat1, lon1, lat2, lon2 float64) float64 {
+	p1, p2 := lat1*math.Pi/180, lat2*math.Pi/180
+	dl := (lon2 - lon1) * math.Pi / 180
+	y := math.Sin(dl) * math.Cos(p2)
+	x := math.Cos(p1)*math.Sin(p2) - math.Sin(p1)*math.Cos(p2)*math.Cos(dl)
+	return math.Mod(math.Atan2(y, x)*180/math.Pi+360, 360)
+}
+
 func offsetPoint(lat, lon, bearing, dist, r float64) (float64, float64) {
 	la, lo, br, d := lat*math.Pi/180, lon*math.Pi/180, bearing*math.Pi/180, dist/r
 	la2 := math.Asin(math.Sin(la)*math.Cos(d) + math.Cos(la)*math.Sin(d)*math.Cos(br))
@@ -280,6 +289,24 @@ func genGE(cfg *config, r *rng, i int, s *sink) string {
 		if kind == "dtl" {
 			// centimetres to a few hundred metres: the 1% bound bites for near positions too
 			off = math.Pow(10, -2+r.float01()*4.5) * scale
+		}
+		if r.chance(1, 10) && kind == "onl" {
+			// a long, nearly east-west line at high latitude with a centimetre tolerance: between its
+			// ends the great circle bulges towards the pole by more than the tolerance, and a position
+			// on the line is on the line
+			lat = pick(r, []float64{60, 70, 80, -65, -75, 83}) + (r.float01()-0.5)*0.5
+			bearing = pick(r, []float64{90, 270, 88, 93, 268}) + (r.float01()-0.5)*0.5
+			length = (600 + r.float01()*400) * scale
+			lat2, lon2 = offsetPoint(lat, lon, bearing, length, radius)
+			if r.chance(1, 2) {
+				lat2 = lat // exactly along the parallel's end points
+				length = gcDistLL(lat, lon, lat2, lon2) * radius
+				bearing = gcBearingLL(lat, lon, lat2, lon2)
+			}
+			tol = pick(r, []float64{0.01, 0.02, 0.015, 0.03}) * scale
+			along = (0.3 + r.float01()*0.4) * length
+			off = r.float01() * 0.4 * tol
+			s.count("ge.line.bulge")
 		}
 		side := 90.0
 		if r.bool() {
